@@ -106,7 +106,7 @@ def main():
         }],
         "checks": checks,
         "not_applicable": na,
-        "notes": "Every check rebuilds from /repo's current working tree. Exit 0 = held on everything explored, 1 = VIOLATION line(s), 2 = infrastructure trouble (never a violation). VERIF_SEED selects the seed, VERIF_TIER or --tier the tier.",
+        "notes": "Every check rebuilds from /repo's current working tree. Exit 0 = held on everything explored, 1 = VIOLATION line(s), 2 = infrastructure trouble (never a violation). VERIF_SEED selects the seed, VERIF_TIER or --tier the tier. Known findings: /verif/known_findings.json (five repaired defects recorded as fixed, one unrepaired finding of C05 printed as KNOWN-FINDING; see DESIGN.md section 7).",
     }
     with open(os.path.join(os.path.dirname(__file__), "..", "MANIFEST.json"), "w") as f:
         json.dump(m, f, indent=1)
